@@ -34,6 +34,9 @@ template<typename T, typename W, typename H, typename E, typename A>
 const uint8_t frequent_items_sketch<T, W, H, E, A>::LG_MIN_MAP_SIZE;
 
 template<typename T, typename W, typename H, typename E, typename A>
+const uint8_t frequent_items_sketch<T, W, H, E, A>::LG_MAX_MAP_SIZE;
+
+template<typename T, typename W, typename H, typename E, typename A>
 frequent_items_sketch<T, W, H, E, A>::frequent_items_sketch(uint8_t lg_max_map_size, uint8_t lg_start_map_size,
     const E& equal, const A& allocator):
 total_weight(0),
@@ -426,6 +429,9 @@ void frequent_items_sketch<T, W, H, E, A>::check_size(uint8_t lg_cur_size, uint8
   }
   if (lg_cur_size < LG_MIN_MAP_SIZE) {
     throw std::invalid_argument("Possible corruption: lg_cur_size must not be less than " + std::to_string(LG_MIN_MAP_SIZE) + ": " + std::to_string(lg_cur_size));
+  }
+  if (lg_max_size > LG_MAX_MAP_SIZE) {
+    throw std::invalid_argument("Possible corruption: lg_max_size must not be greater than " + std::to_string(LG_MAX_MAP_SIZE) + ": " + std::to_string(lg_max_size));
   }
 }
 
